@@ -1560,3 +1560,27 @@ Proof.
   - destruct (pop_incr m) as [[[|] m1]| |]; try reflexivity. apply IH.
   - destruct (exec_instr true false p e t m) as [[[|] m1]| |]; try reflexivity. apply IH.
 Qed.
+
+(* ================================================================== 10. the pinned tree, where stepping is harmless *)
+Lemma exec_op_pinned_non_exit : forall single p e m bc, (bc =? CODE_EXIT) = false ->
+  exec_op false single p e m bc = exec_op true single p e m bc.
+Proof. intros single p e m bc H. unfold exec_op. rewrite H. reflexivity. Qed.
+
+Lemma single_tail_plain : forall p t m2, end_of_step_plain p t m2 = true -> single_tail false p t m2 = single_tail true p t m2.
+Proof.
+  intros p t m2 H. unfold end_of_step_plain, single_tail in *.
+  destruct (segment_done p m2) as [[|]|c|] eqn:Es.
+  - apply andb_prop in H. destruct H as [Hd Hdo]. destruct (depth m2 =? t); [discriminate|].
+    unfold pop_only, pop_incr. destruct (m_frames m2) as [|fr0 fr] eqn:Ef; [reflexivity|].
+    cbn [m_dos set_frames]. destruct (m_dos m2) as [|[[dd dstop] di] dos']; [reflexivity|].
+    assert (Hdep : depth (set_frames m2 fr) = depth m2 - 1).
+    { unfold depth, zlen. cbn [m_frames set_frames]. rewrite Ef. cbn [length]. lia. }
+    rewrite Hdep. destruct (abs_depth dd =? depth m2 - 1); [discriminate|]. reflexivity.
+  - destruct (depth m2 =? t); reflexivity.
+  - destruct (depth m2 =? t) eqn:Ed; [|reflexivity].
+    (* segment_done faults: both variants fault, unless the patched one stops first at the target depth *)
+    unfold segment_done in Es. destruct (m_frames m2) as [|[wh ip] fr] eqn:Ef.
+    + (* no frame: depth 0 = t; the pinned tree reads current_where_[-1] *) discriminate H.
+    + discriminate H.
+  - exfalso. eapply segment_done_noof; eassumption.
+Qed.
